@@ -100,9 +100,35 @@ for more than the property). New in this round:
   detected by the spinning verdict.
 
 """
+n4, nd4, ab4 = stats(rows4)
+r4text = f"""
+**Round 4** (interleaving-only brief): 8 fresh sub-agents for the properties decided by the scheduler or by
+crash points (C01 C02 C03 C26 C27 C28 C32 C29), told that the change must be invisible in any
+single-threaded use and in the common schedule and show only when two goroutines (or, for C29, two live
+sessions / a crash) hit a specific window = 16 changes, named `<ID>-r4-<n>`. **{n4} kept, {n4 - nd4} detected**
+({ab4} by the quick tier as it stood). What this round added:
+* **Atomic operations are scheduling points now** (C28-r4-1: `atomic.AddUint32` split into a load and a
+  store in consecutive statements — no lock, no channel, and nothing for the race detector either):
+  mkoverlay puts a scheduling point before every statement that calls a `sync/atomic` function (11 sites;
+  the hot state/flag words of `lang/state` and `lang/process` are left out — their readers already yield in
+  the polling loop's Sleep). The duplicate FID is then found with one preemption.
+* **Interactions through the file system** (C29-r4-1: `History.Write` without `O_APPEND`, position taken
+  from an earlier `Stat`; C29-r4-2: the torn-line repair only on a session's first write): C29 gained (a)
+  live-session cases in the crash enumeration — A records, B opens the file and crashes at every byte of its
+  write, A records again — and (b) an E1 part: 2-3 live sessions recording at the same time through the
+  real `History.Write`, with a scheduling point before *every statement* of that function (mkoverlay
+  `stmtPointFuncs`: the sessions share nothing but the file, so no synchronisation operation exists to hang
+  a point on), all interleavings with <= 2 preemptions; a later session must load exactly what was recorded.
+* **A critical section that is atomic for the scheduler but shared among readers** (C27-r4-2: `Add` under
+  `RLock`): two `Add`s inside the read lock never interleave under a cooperative scheduler (no point
+  inside), so C27 cannot see the lost job; the race detector can: C32's object-level part now also covers
+  the job table (every pair of Add / GarbageCollect / Get / GetLatest / GetFromCommandLine / List), and
+  reports it. Recorded as detected by C32, not by C27.
+
+"""
 s = open('/verif/DESIGN.md').read()
 i = s.index('**Round 1**')
 j = s.index('### 6.6 Stated limits')
-new = "**Round 1**\n\n" + table(rows1) + "\n" + r2text + table(rows2) + "\n" + r3text + table(rows3) + "\n\n"
+new = "**Round 1**\n\n" + table(rows1) + "\n" + r2text + table(rows2) + "\n" + r3text + table(rows3) + "\n" + r4text + table(rows4) + "\n\n"
 open('/verif/DESIGN.md', 'w').write(s[:i] + new + s[j:])
-print('round1', stats(rows1), 'round2', stats(rows2), 'round3', stats(rows3))
+print('round1', stats(rows1), 'round2', stats(rows2), 'round3', stats(rows3), 'round4', stats(rows4))
